@@ -427,6 +427,26 @@ impl Ctx {
                 if name == "trace" && m.args.len() == 1 && self.is_tracer(&m.args[0]) {
                     return Stmt::CollectTrace(self.place(&m.receiver));
                 }
+                // <iteration source>.for_each(|pat| body)  ==  for pat in <iteration source> { body }
+                if name == "for_each" && m.args.len() == 1 {
+                    if let Expr::Closure(c) = strip(&m.args[0]) {
+                        let plain = c.attrs.is_empty()
+                            && c.lifetimes.is_none()
+                            && c.constness.is_none()
+                            && c.movability.is_none()
+                            && c.asyncness.is_none()
+                            && c.inputs.len() == 1;
+                        if plain {
+                            let pat = match &c.inputs[0] {
+                                Pat::Type(pt) => &*pt.pat,
+                                p => p,
+                            };
+                            if let Some(pats) = self.binders(pat) {
+                                return Stmt::ForEach(self.iter_src(&m.receiver), pats, Box::new(self.expr(&c.body)));
+                            }
+                        }
+                    }
+                }
                 unk()
             }
             Expr::Call(c) => {
